@@ -21,6 +21,7 @@ CONSTANTS
   MaxSwitch,    \* at most this many nodes with out-degree > 2
   RecDegs,      \* out-degrees allowed for the recover node ({} = no second root; {0} = what Go source can produce)
   MaxRecNodes,  \* bound on the nodes only reachable from the recover node (incl. itself)
+  RecMax,       \* a second root is only added to entry regions with <= RecMax nodes
   EmitCases,    \* BOOLEAN: print realisable complete graphs as CASE lines
   DesignMax     \* the design-level invariants are evaluated on complete graphs with <= DesignMax nodes
 
@@ -58,7 +59,7 @@ Process ==
 
 \* the entry region is complete: add the second root (it has no predecessors)
 AddRecover ==
-  /\ Complete /\ rec = 0 /\ RecDegs # {}
+  /\ Complete /\ rec = 0 /\ RecDegs # {} /\ m <= RecMax
   /\ rec' = m + 1 /\ m' = m + 1
   /\ UNCHANGED <<succs, nsw>>
 
